@@ -1,10 +1,11 @@
 import ScVerif.Base.Line
 import ScVerif.C13.WF
 import ScVerif.C13.Async
+import ScVerif.C13.Ctx
 /-! Driver handler for C13: parses one request line, runs the model, prints the canonical answer.
 
 ```
-wrap|grpc|legacy|wf|async|asynclegacy <shape> <out-md> <srv-ops> <fin> <cli-ops> <reuse 0|1>
+wrap|grpc|legacy|wf|async|asynclegacy <shape> <out-md|~> <srv-ops> <fin> <cli-ops> <reuse 0|1> [<ctx>]
 open stream|invoke <method> <clientStreams> <serverStreams> live|cancel|deadline
 ```
 Encodings are those of harness/cmd/c13/script.go. -/
@@ -30,6 +31,26 @@ def parseSOp? (t : String) : Option SOp :=
   | ['R'] => some .recv
   | ['W'] => some .wait
   | _ => none
+
+/-- Handler ops of the scripted server: the plain ops, and `E` = SetHeader(request metadata). -/
+def parseHOp? (t : String) : Option HOp :=
+  if t = "E" then some .echoIn else (parseSOp? t).map HOp.op
+
+/-- The caller's outgoing metadata: `~` = none at all, `-` = present and empty. -/
+def parseOut? (s : String) : Option (Option MD) :=
+  if s = "~" then some none else (parseMD? s).map some
+
+def parseCtxItem? (c : CallerCtx) (t : String) : Option CallerCtx :=
+  match t.toList with
+  | 'I' :: r => (parseMD? (String.ofList r)).map fun md => { c with incoming := some md }
+  | ['D'] => some { c with deadline := true }
+  | ['P'] => some { c with values := true }
+  | _ => none
+
+/-- The caller's context besides the outgoing metadata: `-` or comma separated `I<md>` (incoming
+metadata), `D` (a far deadline), `P` (peer and an application value). -/
+def parseCtx? (s : String) : Option CallerCtx :=
+  if s = "" || s = "-" then some {} else (s.splitOn ",").foldlM parseCtxItem? {}
 
 def parseCOp? (t : String) : Option COp :=
   match t.toList with
@@ -90,6 +111,8 @@ def showEv : Ev → String
 
 def showSEv : SEv → String
   | .incoming md => "in" ++ showMD md
+  | .deadline => "dl"
+  | .outgoing md => "o" ++ showMD md
   | .got m => "g" ++ toString m
   | .eof => "eof"
   | .hErr => "Herr"
@@ -111,6 +134,26 @@ def showOpen : Open → String
   | .ctxEnded .cancel => "Canceled"
   | .ctxEnded .deadline => "DeadlineExceeded"
 
+def handleCall (op sh out srv fin cli reuse ctx : String) : Option String := do
+  let reuse ← parseBool? reuse
+  let shape ← parseShape? sh
+  let out ← parseOut? out
+  let hs ← parseList? parseHOp? srv
+  let fin ← parseFin? fin
+  let cs ← parseList? parseCOp? cli
+  let ctx0 ← parseCtx? ctx
+  -- the caller's context: outgoing metadata, and a deadline if the client script waits for one
+  let ctx : CallerCtx := { ctx0 with outgoing := out, deadline := ctx0.deadline || hasDeadlineOp cs }
+  let h := scripted hs fin
+  match op with
+  | "wrap" => pure (showTranscript (Wrap.runCtx shape ctx h cs reuse))
+  | "legacy" => pure (showTranscript (Wrap.runCtxCfg Cfg.legacy shape ctx h cs reuse))
+  | "grpc" => pure (showTranscript (GrpcRef.runCtx shape ctx h cs reuse))
+  | "wf" => pure (showBool (WFScripts shape (h (GrpcRef.serverCtx ctx)).1 fin cs))
+  | "async" => pure (showRuns (Wrap.asyncRuns Cfg.current shape (h (Wrap.startStream Cfg.current ctx)).1 fin cs reuse))
+  | "asynclegacy" => pure (showRuns (Wrap.asyncRuns Cfg.legacy shape (h (Wrap.startStream Cfg.legacy ctx)).1 fin cs reuse))
+  | _ => none
+
 def handleOpt (toks : List String) : Option String :=
   match toks with
   | ["open", via, method, cs, ss, pre] => do
@@ -125,21 +168,8 @@ def handleOpt (toks : List String) : Option String :=
     | "stream" => pure (showOpen (Conn.newStream testApi ctx method cs ss))
     | "invoke" => pure (showOpen (Conn.invoke testApi ctx method))
     | _ => none
-  | [op, sh, out, srv, fin, cli, reuse] => do
-    let reuse ← parseBool? reuse
-    let shape ← parseShape? sh
-    let out ← parseMD? out
-    let ss ← parseList? parseSOp? srv
-    let fin ← parseFin? fin
-    let cs ← parseList? parseCOp? cli
-    match op with
-    | "wrap" => pure (showTranscript (Wrap.run shape out ss fin cs reuse))
-    | "legacy" => pure (showTranscript (Wrap.runCfg Cfg.legacy shape out ss fin cs reuse))
-    | "grpc" => pure (showTranscript (GrpcRef.run shape out ss fin cs reuse))
-    | "wf" => pure (showBool (WFScripts shape ss fin cs))
-    | "async" => pure (showRuns (Wrap.asyncRuns Cfg.current shape ss fin cs reuse))
-    | "asynclegacy" => pure (showRuns (Wrap.asyncRuns Cfg.legacy shape ss fin cs reuse))
-    | _ => none
+  | [op, sh, out, srv, fin, cli, reuse] => handleCall op sh out srv fin cli reuse "-"
+  | [op, sh, out, srv, fin, cli, reuse, ctx] => handleCall op sh out srv fin cli reuse ctx
   | _ => none
 
 def handle (toks : List String) : String := (handleOpt toks).getD "!bad-op"
